@@ -525,6 +525,7 @@ type FuncSpec struct {
 	Modifies  []*Clause
 	LockRequires []*Clause
 	LockEnsures  []*Clause
+	Witnesses []FunDecl
 	Pure      bool
 	Trusted   bool // contract assumed, body not verified (external functions)
 	Lemma     bool
@@ -582,7 +583,7 @@ func NewSpecSet() *SpecSet {
 
 var clauseKeywords = map[string]bool{"requires": true, "ensures": true, "modifies": true, "pure": true, "trusted": true, "lemma": true,
 	"loop": true, "invariant": true, "decreases": true, "callspec": true, "observe": true, "replay": true, "prop": true, "func": true,
-	"sort": true, "fun": true, "ghost": true, "axiom": true, "define": true, "inline": true, "noinline": true, "guarded": true, "flag": true, "loopmodifies": true, "lockrequires": true, "lockensures": true, "lockinvariant": true}
+	"sort": true, "fun": true, "ghost": true, "axiom": true, "define": true, "inline": true, "noinline": true, "guarded": true, "flag": true, "loopmodifies": true, "lockrequires": true, "lockensures": true, "lockinvariant": true, "witness": true}
 
 // ParseSpecLines parses the //@ lines of one package (pkgPath is used for type resolution).
 func (ss *SpecSet) ParseSpecLines(lines []SpecLine, pkgPath string, keyPrefix string) error {
@@ -723,6 +724,20 @@ func (ss *SpecSet) ParseSpecLines(lines []SpecLine, pkgPath string, keyPrefix st
 				}
 			case "trusted":
 				cur.Trusted = true
+			case "witness":
+				// witness name(S1, S2) S : a fresh function symbol per application (assumed contracts only)
+				i := strings.Index(it.rest, "(")
+				j := matchParen(it.rest, i)
+				if i < 0 || j < 0 {
+					return fmt.Errorf("%s:%d: bad witness", it.src.File, it.src.Line)
+				}
+				fd := FunDecl{Name: strings.TrimSpace(it.rest[:i]), Ret: strings.TrimSpace(it.rest[j+1:])}
+				for _, a := range splitTop(it.rest[i+1:j], ',') {
+					if a = strings.TrimSpace(a); a != "" {
+						fd.Args = append(fd.Args, a)
+					}
+				}
+				cur.Witnesses = append(cur.Witnesses, fd)
 			case "lemma":
 				cur.Lemma = true
 			case "inline":
@@ -749,9 +764,34 @@ func (ss *SpecSet) ParseSpecLines(lines []SpecLine, pkgPath string, keyPrefix st
 				cur.Loops[n] = curLoop
 				curCall = nil
 			case "callspec":
-				curCall = &CallSpec{Param: strings.TrimSpace(it.rest)}
-				cur.CallSpecs[curCall.Param] = curCall
-				curLoop = nil
+				// callspec <param> ensures|requires <expr>   or   callspec <param> pure
+				parts := strings.SplitN(strings.TrimSpace(it.rest), " ", 3)
+				cs := cur.CallSpecs[parts[0]]
+				if cs == nil {
+					cs = &CallSpec{Param: parts[0]}
+					cur.CallSpecs[parts[0]] = cs
+				}
+				if len(parts) >= 2 {
+					switch parts[1] {
+					case "pure":
+						cs.Pure = true
+					case "ensures", "requires":
+						if len(parts) < 3 {
+							return fmt.Errorf("%s:%d: callspec clause without expression", it.src.File, it.src.Line)
+						}
+						c, err := mk(parts[1], parts[2], it.src)
+						if err != nil {
+							return err
+						}
+						if parts[1] == "ensures" {
+							cs.Ensures = append(cs.Ensures, c)
+						} else {
+							cs.Requires = append(cs.Requires, c)
+						}
+					default:
+						return fmt.Errorf("%s:%d: bad callspec clause %q", it.src.File, it.src.Line, parts[1])
+					}
+				}
 			case "requires", "ensures", "modifies", "invariant", "decreases", "observe", "loopmodifies", "lockrequires", "lockensures", "lockinvariant":
 				texts := []string{it.rest}
 				if it.kw == "modifies" || it.kw == "loopmodifies" || it.kw == "observe" {
